@@ -91,8 +91,8 @@ theorem FormatLog.regions {o : FormatOpts} {t : Nat} {boot : FBoot} {ft : FatTyp
     {Lb Lk Lz Lf Lr Lt : List LogItem} (hlog : FormatLog o boot ft d0 d' Lb Lk Lz Lf Lr Lt)
     (hg : FmtGeom o t boot ft) (hlen : boot.serialize.length = 512) (hsz : t * boot.bpb.bps ≤ d0.img.size) :
     FmtRegions o boot ft Lb Lk Lz Lf Lr Lt := by
-  obtain ⟨dK, hsK, hsizeK, hfr⟩ := hlog.rest
-  obtain ⟨tc, s, dA, dB, dC, htc, hsA, hsizeA, hrun, hsf, hsr, hsizeC, htail⟩ := hfr.fmt
+  obtain ⟨dK, hsK, himgK, hsizeK, hfr⟩ := hlog.rest
+  obtain ⟨tc, s, dA, dB, dC, htc, hsA, himgA, hsizeA, hrun, hsf, hsr, hsizeC, htail⟩ := hfr.fmt
   have hslice := fmtSlice_eq boot.bpb ft hg.extFlags
   rw [hslice] at hrun
   have hmir : 0 < (fmtSlice boot.bpb).mirrors := by
